@@ -1,0 +1,11 @@
+//! Verification seam.  Only compiled with `--cfg mmtk_verif`; never part of a normal build.
+//!
+//! This module lets an external deterministic simulator own every source of scheduling
+//! nondeterminism inside mmtk-core: blocking on locks and condition variables, the clock,
+//! `mmap` results, and a set of cooperative yield points.  The simulator itself lives outside
+//! this repository; it installs an implementation of [`rt::SimRuntime`].
+
+pub mod introspect;
+pub mod rt;
+pub mod sync;
+pub mod time;
